@@ -104,6 +104,7 @@ def main():
     os.makedirs(outdir, exist_ok=True)
     os.makedirs(os.path.join(VERIF, "evidence"), exist_ok=True)
     tmpdir = tempfile.mkdtemp(prefix="verif-%s-" % prop, dir=outdir)
+    os.environ["VERIF_TMP"] = tmpdir  # scratch files of the workers live and die with this run
     harness_errors = []
     violations = []  # (replay path, violation dict)
 
